@@ -328,18 +328,50 @@ def crates():
     return out
 
 
+MOD = re.compile(r"((?:#\[[^\]]*\]\s*)*)(?:pub(?:\s*\([^)]*\))?\s+)?mod\s+([A-Za-z_][A-Za-z0-9_]*)\s*;")
+
+
+def module_files(root_file):
+    """files of the crate's module tree (`mod x;` followed from lib.rs; test-only modules skipped),
+    so that source files no `mod` line reaches (dead code) are not listed"""
+    seen, todo = [], [root_file]
+    while todo:
+        f = todo.pop()
+        if f in seen:
+            continue
+        seen.append(f)
+        src = strip_comments(open(f, encoding="utf-8").read())
+        base = os.path.dirname(f)
+        if os.path.basename(f) not in ("lib.rs", "mod.rs", "main.rs"):
+            base = os.path.join(base, os.path.basename(f)[:-3])
+        for m in MOD.finditer(src):
+            attrs, name = m.group(1), m.group(2)
+            if re.search(r"cfg\s*\(\s*test\s*\)", attrs) or re.search(r'cfg\s*\(\s*not\s*\(\s*feature\s*=\s*"serde"', attrs):
+                continue
+            if "path" in attrs:
+                raise ParseError(f"{f}: #[path] on mod {name} not supported")
+            c1, c2 = os.path.join(base, name + ".rs"), os.path.join(base, name, "mod.rs")
+            if os.path.exists(c1):
+                todo.append(c1)
+            elif os.path.exists(c2):
+                todo.append(c2)
+            else:
+                raise ParseError(f"{f}: module {name} not found")
+    return sorted(seen)
+
+
 def collect():
     types = []
     for crate, srcdir in crates():
-        for dp, _, fns in sorted(os.walk(srcdir)):
-            for fn in sorted(fns):
-                if fn.endswith(".rs"):
-                    path = os.path.join(dp, fn)
-                    rel = os.path.relpath(path, REPO)
-                    try:
-                        types += parse_file(path, rel, crate)
-                    except ParseError as e:
-                        raise ParseError(f"{rel}: {e}")
+        root = os.path.join(srcdir, "lib.rs")
+        if not os.path.exists(root):
+            raise ParseError(f"{srcdir}: no lib.rs")
+        for path in module_files(root):
+            rel = os.path.relpath(path, REPO)
+            try:
+                types += parse_file(path, rel, crate)
+            except ParseError as e:
+                raise ParseError(f"{rel}: {e}")
     types.sort(key=lambda t: (t["crate"], t["name"], t["file"]))
     return types
 
